@@ -138,12 +138,18 @@ def build_route_decision_event(
 
     from hypergraph.events.types import RouteDecisionEvent
 
+    decision = state.routing_decisions[node.name]
+    if isinstance(decision, list):
+        # A multi-target decision is a list the scheduler keeps reading: hand
+        # processors their own copy so that consuming it cannot change routing.
+        decision = list(decision)
+
     return RouteDecisionEvent(
         run_id=run_id,
         parent_span_id=run_span_id,
         node_name=node.name,
         graph_name=graph.name,
-        decision=state.routing_decisions[node.name],
+        decision=decision,
     )
 
 
